@@ -96,6 +96,58 @@ def get_functions(path):
 # ------------------------------------------------------------------------------------------------
 # (a) sysabs_unique / sysabs
 
+class _Subst(ast.NodeTransformer):
+    def __init__(self, mapping):
+        self.mapping = mapping
+
+    def visit_Name(self, node):
+        if isinstance(node.ctx, ast.Load) and node.id in self.mapping:
+            import copy
+            return copy.deepcopy(self.mapping[node.id])
+        return node
+
+
+class _Normalise(ast.NodeTransformer):
+    """source-level normal form before translation: `for <names> in <literal tuple/list>` loops are unrolled (the loop variables
+    are substituted, they must not be assigned in the body), integer constant arithmetic is folded"""
+
+    def visit_For(self, node):
+        import copy
+        self.generic_visit(node)
+        it = node.iter
+        if node.orelse or not isinstance(it, (ast.Tuple, ast.List)):
+            return node
+        tgt = node.target
+        names = [tgt.id] if isinstance(tgt, ast.Name) else \
+            ([t.id for t in tgt.elts] if isinstance(tgt, ast.Tuple) and all(isinstance(t, ast.Name) for t in tgt.elts) else None)
+        if names is None:
+            return node
+        for sub in ast.walk(ast.Module(body=node.body, type_ignores=[])):
+            if isinstance(sub, ast.Name) and isinstance(sub.ctx, (ast.Store, ast.Del)) and sub.id in names:
+                return node
+        out = []
+        for e in it.elts:
+            if isinstance(tgt, ast.Name):
+                mapping = {tgt.id: e}
+            elif isinstance(e, (ast.Tuple, ast.List)) and len(e.elts) == len(names):
+                mapping = dict(zip(names, e.elts))
+            else:
+                return node
+            for b in node.body:
+                nb = _Normalise().visit(_Subst(mapping).visit(copy.deepcopy(b)))
+                out += nb if isinstance(nb, list) else [nb]
+        return out
+
+    def visit_BinOp(self, node):
+        self.generic_visit(node)
+        a, b = node.left, node.right
+        isint = lambda c: isinstance(c, ast.Constant) and isinstance(c.value, int) and not isinstance(c.value, bool)
+        if isint(a) and isint(b) and isinstance(node.op, (ast.Add, ast.Sub, ast.Mult)):
+            v = {ast.Add: a.value + b.value, ast.Sub: a.value - b.value, ast.Mult: a.value * b.value}[type(node.op)]
+            return ast.copy_location(ast.Constant(value=v), node)
+        return node
+
+
 class FnTranslator:
     """translates one function body to a Lean expression by state passing"""
 
@@ -164,6 +216,12 @@ class FnTranslator:
                 if not mod_ok:
                     raise Refuse('%s: %s: `%%` whose value is not compared with 0' % (self.fn.name, where(e)))
                 a, ta = self.expr(e.left)
+                r = e.right
+                if ta == 'int' and isinstance(r, ast.Subscript) and isinstance(r.value, ast.Name) \
+                        and self.params.get(r.value.id) == ('syscond',) and self.const_index(r) in self.block_guard:
+                    # `x % syscond[i]` written without the local, inside `if syscond[i] != 0`
+                    b, _tb = self.expr(r)
+                    return '(%s %% %s)' % (a, b), 'int'
                 if ta != 'int' or not isinstance(e.right, ast.Name) or e.right.id not in self.guard \
                         or not self.is_assigned(e.right.id):
                     raise Refuse('%s: %s: `%%` by something that is not a local guarded by `if syscond[i] != 0`' % (self.fn.name, where(e)))
@@ -293,7 +351,10 @@ class FnTranslator:
         raise Refuse('%s: %s: statement %s' % (self.fn.name, where(s), type(s).__name__))
 
     def run(self):
-        body = strip_doc(self.fn.body)
+        import copy
+        fn = _Normalise().visit(copy.deepcopy(self.fn))
+        ast.fix_missing_locations(fn)
+        body = strip_doc(fn.body)
         if not body or not isinstance(body[-1], ast.Return) or body[-1].value is None:
             raise Refuse('%s: does not end with `return <expr>`' % self.fn.name)
         for s in body[:-1]:
